@@ -135,8 +135,109 @@ class SinkAnalysis:
                         res["identity"] = res["identity"] | (~ps)
                         res["dropped"] = res["dropped"] - (~ps) if False else res["dropped"]
                         res["fast_path"] = short(pred)
+        if res is None and b is not None and b["argc"] == 1 and b["locals"][0]["ty"] == "alloc::string::String":
+            res = self._escaper_by_interpretation(path)
         self.escapers[path] = res
         return res
+
+    def _escaper_by_interpretation(self, path):
+        """the same verdict for an escaping function written in another shape (a loop with push/push_str, a helper
+        returning Option<&str> ...): its syntax tree is *interpreted* on every single character of the BMP (all
+        characters XML cannot carry and all markup characters live there) and on samples beyond it, and on a few
+        multi-character strings to establish that it works character by character.  None if it is not interpretable
+        or does not look like an escaper (some character must be replaced)."""
+        from .strpipe import StrEval
+        from .common import src_file
+        prog = self.prog
+        fb = prog.bodies[path]
+        f, v = src_file(self.run, fb["span"]["file"])
+        if v is None:
+            return None
+        name = path.split("::")[-1]
+
+        def items_of(node, out):
+            for it in node.get("items", []):
+                if it.get("k") == "fn" and not it.get("test"):
+                    out.setdefault(it["name"], it)
+                elif it.get("k") == "mod" and it.get("inline") and not it.get("test"):
+                    items_of(it, out)
+        fns = {}
+        items_of(v, fns)
+        item = fns.get(name)
+        if item is None:
+            return None
+        others = {k: it for k, it in fns.items() if k != name}
+
+        def run(text):
+            ev = StrEval((), others)
+            out = ev.call_fn(item, [text])
+            if isinstance(out, list):
+                out = "".join(out)
+            if not isinstance(out, str):
+                raise Unknown("result is not a string")
+            return out
+        # Abstract evaluation over a partition of the characters: the interpreter lets the code observe a character
+        # only through comparisons with literals, range/or patterns and a fixed list of std predicates, so two
+        # characters that no such test separates take the same path and produce the same kind of output.  The
+        # partition is cut at every literal / range bound / predicate bound that occurs in the function and its
+        # helpers (and at the bounds of the XML character classes, to report exact sets); one representative per
+        # class is evaluated.
+        cuts = {0, 0xD800, 0xE000, 0x110000}
+
+        def collect(n):
+            if isinstance(n, dict):
+                if n.get("k") == "lit" and n.get("ty") == "char" and "cp" in n:
+                    cuts.update((n["cp"], n["cp"] + 1))
+                if n.get("pk") == "lit" and isinstance(n.get("lit"), dict) and "cp" in n["lit"]:
+                    cuts.update((n["lit"]["cp"], n["lit"]["cp"] + 1))
+                if n.get("pk") == "range":
+                    lo = n["lo"]["cp"] if n.get("lo") else 0
+                    hi = n["hi"]["cp"] if n.get("hi") else 0x10FFFF
+                    cuts.update((lo, hi + (1 if n.get("inclusive") else 0)))
+                for v_ in n.values():
+                    collect(v_)
+            elif isinstance(n, list):
+                for v_ in n:
+                    collect(v_)
+        for it in fns.values():
+            collect(it)
+        from .charset import WHITESPACE as _WS
+        for cs_ in (_WS, NON_XML, FORBIDDEN["text"], FORBIDDEN["attr"], CS([(0, 0x1F), (0x7F, 0x9F)]), CS([(0x30, 0x39), (0x41, 0x5A), (0x61, 0x7A)])):
+            for lo, hi in cs_.iv:
+                cuts.update((lo, hi + 1))
+        bounds = sorted(c for c in cuts if 0 <= c <= 0x110000)
+        identity, dropped, problems, replaced = [], [], [], 0
+        n_classes = 0
+        try:
+            for lo, hi in zip(bounds, bounds[1:]):
+                if lo >= 0xD800 and hi <= 0xE000:
+                    continue
+                n_classes += 1
+                ch = chr(lo)
+                out = run(ch)
+                if out == ch:
+                    identity.append((lo, hi - 1))
+                elif out == "":
+                    dropped.append((lo, hi - 1))
+                    replaced += 1
+                else:
+                    replaced += 1
+                    dec = decode_entity(out)
+                    if (dec != ch or hi - lo != 1) and len(problems) < 5:
+                        problems.append("%s replaced by %r, which does not decode to the same character (round trip broken)" % (
+                            ("%r" % ch) if hi - lo == 1 else "the characters U+%04X..U+%04X are" % (lo, hi - 1), out))
+            for sample in ("", "ab", "a<b&c>\"d'", "x\ry\x01z\uffff", "<<&&", "\u4e00&\U0001F600<"):
+                if run(sample) != "".join(run(c) for c in sample):
+                    problems.append("the function does not work character by character on %r" % sample)
+        except (Unknown, RecursionError, KeyError, TypeError, ValueError) as ex:
+            return None
+        if not replaced:
+            return None
+
+        ident = CS(identity)
+        return {"fn": path, "identity": ident, "dropped": CS(dropped), "problems": problems,
+                "entries": [("abstract evaluation over %d character classes" % n_classes, "interp", None, n_classes)],
+                "where": "%s:%d" % (fb["span"]["file"], item["pos"][0]), "interpreted": True}
 
     def _pred_set(self, fpath):
         """character set of a workspace `fn(char) -> bool` (syntax tree of its file)"""
